@@ -257,6 +257,8 @@ class Interp:
         if c.block is not None:       # Hoare triple on a statement block: inputs are the contract's params
             keys = [fs.after_key.get(id(s_)) for s_ in body]
             k0, k1 = "after " + c.block[0], "after " + c.block[1]
+            if k0 not in keys or k1 not in keys:
+                raise Unsupported(f"block {c.block} of {qualname} is not a top-level statement range of the current function")
             body = body[keys.index(k0):keys.index(k1) + 1]
             args = list(c.params)
         if c.block is None:
